@@ -297,6 +297,34 @@ func checkC04(tier string) {
 		r.Inconclusive("cannot build the HTTP worker: " + err.Error())
 		r.Finish()
 	}
+	// A hang verdict is a wall-clock verdict. Every hung job is run once more, nearly alone (four children, nothing else of this
+	// check running) and with four times the watchdog: only a hang that repeats there is reported. A program bounded by
+	// an iteration limit takes seconds alone and can take longer than the watchdog on a machine that is oversubscribed
+	// several times over; an unbounded one hangs again.
+	var again []HJob
+	for _, j := range jobs {
+		if o := res[j.ID]; o != nil && o.Ev == "hang" {
+			jj := j
+			if jj.WatchS == 0 {
+				jj.WatchS = 15
+			}
+			jj.WatchS *= 4
+			again = append(again, jj)
+		}
+	}
+	if len(again) > 0 && len(again) <= 64 {
+		res2, err2 := httpRun(r, again, HRunOpts{Tag: "c04-hang-retry", Parallel: 4, Timeout: 3 * 60 * 60 * 1e9, MemKB: 8 << 20})
+		if err2 == nil {
+			for _, j := range again {
+				if o2 := res2[j.ID]; o2 != nil && o2.Ev != "hang" && o2.Died == "" {
+					res[j.ID] = o2
+					r.Count("hang_not_reproduced_when_run_alone", 1)
+				} else {
+					r.Count("hang_reproduced_when_run_alone", 1)
+				}
+			}
+		}
+	}
 	fams := map[string]int{}
 	statusHist := map[string]int{}
 	for i, c := range cases {
